@@ -28,6 +28,9 @@ type Issue struct {
 	Model    string   `json:"model,omitempty"`
 	Impl     string   `json:"impl,omitempty"`
 	Replay   string   `json:"replay,omitempty"`
+	Seed     int64    `json:"seed"`
+	Tier     string   `json:"tier"`
+	Area     string   `json:"area"`
 }
 
 type Result struct {
@@ -198,6 +201,7 @@ func (r *Run) addIssue(is Issue) {
 		return c
 	}, name)
 	is.Replay = filepath.Join(dir, name)
+	is.Seed, is.Tier, is.Area = r.Seed, r.Tier, r.Area
 	b, _ := json.MarshalIndent(is, "", " ")
 	os.WriteFile(is.Replay, b, 0o644)
 	r.Res.Issues = append(r.Res.Issues, is)
